@@ -44,7 +44,10 @@ CapSeq(S) == (IF "TI" \in S THEN <<"TI">> ELSE <<>>) \o (IF "REV" \in S THEN <<"
 IntegrityOK(in) == in.env.parse /\ in.env.sigValid /\ in.env.ptype = "notary"
 
 (* descriptor binding (C01): digest and size always; media type for OCI,    *)
-(* and for blobs whenever the caller states one                             *)
+(* and for blobs whenever the caller states one.  desc.mt relates the       *)
+(* media type presented by the caller to the signed one: "same", "other",   *)
+(* "none" (caller states none), "unsigned" (caller states one, the signed   *)
+(* payload carries none)                                                    *)
 DescBound(in) ==
   /\ in.desc.dgEq /\ in.desc.szEq
   /\ IF in.api = "Verify" THEN in.desc.mt = "same" ELSE in.desc.mt \in {"same", "none"}
